@@ -38,7 +38,7 @@ func (p *rawPath) Type() path.Type                { return p.t }
 // pkt is the abstract parsed packet + the oracle inputs of one srv.handle op.
 type pkt struct {
 	// configuration (which child, which socket)
-	mode string // srv | disp
+	mode string // srv | srvkeys | disp
 	mock int    // 1: child runs with USE_MOCK_KEYS=true
 	sock string // svc | eh
 	svc  int    // service port of the child
@@ -147,7 +147,7 @@ func parseOp(toks []string) (*pkt, bool) {
 		okAll = false
 		return ""
 	}
-	p.mode = enum("mode", "srv", "disp")
+	p.mode = enum("mode", "srv", "srvkeys", "disp")
 	p.mock = int(num("mock", 0, 1))
 	p.sock = enum("sock", "svc", "eh")
 	p.svc = int(num("svc", 1, 65535))
@@ -209,6 +209,9 @@ func parseOp(toks []string) (*pkt, bool) {
 		return nil, false
 	}
 	if p.mode == "disp" && (p.sock != "eh" || p.mock != 0) {
+		return nil, false
+	}
+	if p.mode == "srvkeys" && p.mock != 0 {
 		return nil, false
 	}
 	if p.mac != "err" {
@@ -308,9 +311,27 @@ func (p *pkt) bytes() ([]byte, error) {
 
 var zeroKey = make([]byte, 16)
 
+// key is the host-host key the listener must verify this packet under: the all-zero mock key,
+// or (mode=srvkeys) the key of the *addressed* server host and the client host.
+func (p *pkt) key() ([]byte, error) {
+	if p.mode == "srvkeys" {
+		return hostHostKey(p.dia, p.sia, p.da, p.sa)
+	}
+	return zeroKey, nil
+}
+
 // serverMAC is the oracle: the MAC the server computes over the received packet under the
-// mock key (independent call of spao with our own layer values).
+// right key (independent call of spao with our own layer values).
 func (p *pkt) serverMAC() ([]byte, error) {
+	k, err := p.key()
+	if err != nil {
+		return nil, errors.New("n/a")
+	}
+	return p.macUnder(k)
+}
+
+// macUnder computes the request MAC over this packet under an arbitrary key.
+func (p *pkt) macUnder(key []byte) ([]byte, error) {
 	if !p.hasAu || len(p.auth) != scion.PacketAuthOptDataLen || p.l4 != "udp" {
 		return nil, errors.New("n/a")
 	}
@@ -333,7 +354,7 @@ func (p *pkt) serverMAC() ([]byte, error) {
 	opt := &slayers.EndToEndOption{OptType: slayers.OptTypeAuthenticator, OptData: append([]byte(nil), p.auth...)}
 	out := make([]byte, 16)
 	_, err = spao.ComputeAuthCMAC(spao.MACInput{
-		Key: zeroKey, Header: slayers.PacketAuthOption{EndToEndOption: opt}, ScionLayer: scn,
+		Key: key, Header: slayers.PacketAuthOption{EndToEndOption: opt}, ScionLayer: scn,
 		PldType: slayers.L4UDP, Pld: udp,
 	}, make([]byte, spao.MACBufferSize), out)
 	if err != nil {
@@ -441,13 +462,13 @@ func parseDatagram(b []byte) (*parsed, error) {
 }
 
 // replyMACok verifies the authenticator of a reply the way the client does.
-func replyMACok(r *parsed, opt *slayers.EndToEndOption) bool {
+func replyMACok(r *parsed, opt *slayers.EndToEndOption, key []byte) bool {
 	if len(opt.OptData) != scion.PacketAuthOptDataLen {
 		return false
 	}
 	out := make([]byte, 16)
 	_, err := spao.ComputeAuthCMAC(spao.MACInput{
-		Key: zeroKey, Header: slayers.PacketAuthOption{EndToEndOption: opt}, ScionLayer: &r.scn,
+		Key: key, Header: slayers.PacketAuthOption{EndToEndOption: opt}, ScionLayer: &r.scn,
 		PldType: slayers.L4UDP, Pld: r.l4raw,
 	}, make([]byte, spao.MACBufferSize), out)
 	return err == nil && bytes.Equal(out, opt.OptData[scion.PacketAuthMetadataLen:])
